@@ -83,6 +83,11 @@ def make_cases(tier, seed, n_random=None, maxlen=None):
                 continue
             cases.append(dict(kind="eos", name=name, g=g, sr=sr, rename=["id", "tuple", "rev"][(i + k) % 3],
                               order=common.perm(len(g.rules), rng), maxlen=min(bound(tier, g, maxlen), 4), eos=[None, "$"][(i + k) % 2]))
+    # grammars whose own symbols are spelled like the library's internal start-symbol prefix '<START>' (the new start symbol must be
+    # fresh whatever the user's names are) - strengthened after the independently seeded change C20-2
+    for i, (name, g) in enumerate(doms[:50]):
+        cases.append(dict(kind="eos", name=name, g=g, sr=EOS_SR[i % len(EOS_SR)], rename=["START0", "START1"][i % 2], order=None,
+                          maxlen=min(bound(tier, g, maxlen), 4), eos=[None, "$"][i % 2]))
     return cases
 
 
